@@ -25,16 +25,49 @@ def coq_sig(sg):
     return '{| ms_params := [' + '; '.join(U.coq_ann(a) for a in sg['params']) + ']; ms_ret := ' + U.coq_ann(sg['ret']) + ' |}'
 
 
-def coq_cdef(cd):
+def coq_expanded(sg, nva, nkw):
+    opt = lambda a: 'None' if a is None else f'(Some {U.coq_ann(a)})'
+    return f'(expand_variadic {coq_sig(sg)} {opt(sg.get("varargs"))} {nva}%nat {opt(sg.get("varkw"))} {nkw}%nat)'
+
+
+def coq_cdef(cd, extra=()):
     ids = '[' + '; '.join('%d%%nat' % t['id'] for t in cd['tparams']) + ']'
     kind = {'plain': 'KPlain', 'pedantic': 'KPedantic', 'gensub': f'(kind_gensub {ids})'}.get(cd['kind']) or f'(KGeneric {ids})'
     init = 'None' if cd['init'] is None else f'(Some {coq_sig(cd["init"])})'
-    return f'{{| cd_kind := {kind}; cd_tparams := {ids}; cd_init := {init}; cd_methods := [' + '; '.join(coq_sig(m) for m in cd['methods']) + '] |}'
+    meths = [coq_sig(m) for m in cd['methods']] + [coq_expanded(cd['methods'][m], a, k) for (m, a, k) in extra]
+    return f'{{| cd_kind := {kind}; cd_tparams := {ids}; cd_init := {init}; cd_methods := [' + '; '.join(meths) + '] |}'
 
 
-def coq_world(w):
-    return ('{| w_classes := [' + '; '.join(coq_cdef(c) for c in w['classes']) + ']; w_funs := ['
-            + '; '.join(coq_sig(f) for f in w['funs']) + '] |}')
+def coq_world_steps(r):
+    """the world and the history as Coq terms.  A call that collects n positional / k keyword values addresses the
+    signature expand_variadic sg va n vk k (Model/GenericInstance.v), appended to the methods / functions"""
+    w = r['world']
+    cls_of_slot, extra_m, extra_f, steps = {}, {k: [] for k in range(len(w['classes']))}, [], []
+    vs = lambda l: '[' + '; '.join(U.coq_val(v) for v in l) + ']'
+    for s in r['steps']:
+        if s[0] == 'new':
+            cls_of_slot.setdefault(s[1], s[2])     # the slot is assigned once in generated histories
+            steps.append(f'SNew {s[1]}%nat {s[2]}%nat [' + '; '.join(U.coq_ann(x) for x in s[3]) + f'] {vs(s[4])}')
+        elif s[0] == 'call':
+            m, ex, kw = s[2], (s[5] if len(s) > 5 else []), (s[6] if len(s) > 6 else [])
+            k = cls_of_slot.get(s[1])
+            if (ex or kw) and k is not None and k < len(w['classes']) and m < len(w['classes'][k]['methods']):
+                key = (m, len(ex), len(kw))
+                if key not in extra_m[k]:
+                    extra_m[k].append(key)
+                m = len(w['classes'][k]['methods']) + extra_m[k].index(key)
+            steps.append(f'SCall {s[1]}%nat {m}%nat {vs(s[3] + ex + kw)} {U.coq_val(s[4])}')
+        else:
+            f, ex, kw = s[1], (s[5] if len(s) > 5 else []), (s[6] if len(s) > 6 else [])
+            if (ex or kw) and f < len(w['funs']):
+                key = (f, len(ex), len(kw))
+                if key not in extra_f:
+                    extra_f.append(key)
+                f = len(w['funs']) + extra_f.index(key)
+            steps.append(f'SFun {f}%nat {vs(s[2] + ex + kw)} {U.coq_val(s[3])}')
+    world = ('{| w_classes := [' + '; '.join(coq_cdef(c, extra_m[k]) for k, c in enumerate(w['classes'])) + ']; w_funs := ['
+             + '; '.join([coq_sig(f) for f in w['funs']] + [coq_expanded(w['funs'][f], a, k) for (f, a, k) in extra_f]) + '] |}')
+    return world, steps
 
 
 def coq_step(s):
@@ -47,7 +80,8 @@ def coq_step(s):
 
 
 def coq_case(c, r):
-    return f'eval_history {U.coq_ctx(c["ctx"])} ({coq_world(r["world"])}) [' + '; '.join(coq_step(s) for s in r['steps']) + ']'
+    world, steps = coq_world_steps(r)
+    return f'eval_history {U.coq_ctx(c["ctx"])} ({world}) [' + '; '.join(steps) + ']'
 
 
 # ------------------------------------------------------------------------------------------ generators
@@ -213,22 +247,46 @@ def renderable(v):
     return True
 
 
-def gen_sig(rng, tvs, nmax=3, ret_none=0.4):
+def gen_sig(rng, tvs, nmax=3, ret_none=0.4, variadic=False):
     n = rng.choice([1, 2, 2, 3][:nmax + 1])
     params = [gen_pos(rng, tvs) for _ in range(n)]
     ret = ['none'] if rng.random() < ret_none else gen_pos(rng, tvs)
-    return {'params': params, 'ret': ret}
+    sg = {'params': params, 'ret': ret}
+    if variadic and rng.random() < 0.22:
+        # *args: T / **kwargs: T (sometimes List[T] or a TypeVar-free annotation), possibly as the only parameters
+        def va():
+            r = rng.random()
+            if tvs and r < 0.6: return T(rng.choice(tvs))
+            if tvs and r < 0.8: return ['gen', 'typing', 'List', [T(rng.choice(tvs))]]
+            return ['cls', rng.choice(['int', 'str', ['user', [0]]])]
+        kind = rng.choice(['args', 'args', 'kwargs', 'both'])
+        if kind in ('args', 'both'): sg['varargs'] = va()
+        if kind in ('kwargs', 'both'): sg['varkw'] = va()
+        if rng.random() < 0.3:
+            sg['params'] = params[:rng.choice([0, 1])]
+    return sg
 
 
 def positions_of(sg):
-    return sg['params'] + [sg['ret']]
+    """every annotation of the signature (variadic ones once), the result last"""
+    return sg['params'] + [sg[k] for k in ('varargs', 'varkw') if sg.get(k) is not None] + [sg['ret']]
+
+
+def gen_call_v(rng, sg, xenv):
+    """-> step tail [args, ret, extra positional values, surplus keyword values]"""
+    nva = rng.choice([0, 1, 2, 2, 3]) if sg.get('varargs') is not None else 0
+    nkw = rng.choice([0, 1, 1, 2]) if sg.get('varkw') is not None else 0
+    pos = sg['params'] + [sg['varargs']] * nva + [sg['varkw']] * nkw + [sg['ret']]
+    vals = gen_args(rng, pos, xenv, rng.choice(MODES))
+    n = len(sg['params'])
+    return vals[:n], vals[-1], vals[n:n + nva], vals[n + nva:n + nva + nkw]
 
 
 MODES = ['same', 'same', 'same', 'mixed', 'mixed', 'near', 'random']
 
 
 def gen_call(rng, sg, xenv):
-    vals = gen_args(rng, positions_of(sg), xenv, rng.choice(MODES))
+    vals = gen_args(rng, sg['params'] + [sg['ret']], xenv, rng.choice(MODES))
     return vals[:-1], vals[-1]
 
 
@@ -248,16 +306,16 @@ def gen_typevars_case(rng):
     """stream `typevars`: one plain function (or a method of an undecorated class), a few calls"""
     tvs = rng.sample(CALL_TVS, rng.choice([1, 1, 2]))
     tvs = list({t['id']: t for t in tvs}.values())
-    sg = gen_sig(rng, tvs)
-    if rng.random() < 0.8 and not any(has_tv(a) for a in positions_of(sg)):
+    sg = gen_sig(rng, tvs, variadic=True)
+    if rng.random() < 0.8 and sg['params'] and not any(has_tv(a) for a in positions_of(sg)):
         sg['params'][0] = T(tvs[0])
     as_method = rng.random() < 0.25
     world = {'classes': [{'kind': 'plain', 'tparams': [], 'init': None, 'methods': [sg]}] if as_method else [],
              'funs': [] if as_method else [sg]}
     steps = [['new', 0, 0, [], []]] if as_method else []
     for _ in range(rng.choice([2, 3, 4])):
-        args, ret = gen_call(rng, sg, {})
-        steps.append(['call', 0, 0, args, ret] if as_method else ['fun', 0, args, ret])
+        args, ret, ex, kw = gen_call_v(rng, sg, {})
+        steps.append(['call', 0, 0, args, ret, ex, kw] if as_method else ['fun', 0, args, ret, [], ex, kw])
     return {'stream': 'typevars', 'ctx': G.CTX, 'world': world, 'steps': steps}
 
 
@@ -322,7 +380,7 @@ def gen_history_case(rng, max_steps):
         for _m in range(rng.choice([2, 3, 4])):
             r = rng.random()
             pool = tps if r < 0.55 else (tps + call_tvs if r < 0.8 else call_tvs)
-            methods.append(gen_sig(rng, pool))
+            methods.append(gen_sig(rng, pool, variadic=True))
         init = None
         if rng.random() < 0.5:
             init = gen_sig(rng, rng.choice([tps, tps + call_tvs, []]), nmax=2, ret_none=1.0)
@@ -331,11 +389,11 @@ def gen_history_case(rng, max_steps):
         classes.append({'kind': 'gensub' if (init is None and rng.random() < 0.2) else 'generic', 'tparams': tps, 'init': init, 'methods': methods})
     if rng.random() < 0.55:
         classes.append({'kind': 'pedantic', 'tparams': [], 'init': None,
-                        'methods': [gen_sig(rng, call_tvs) for _ in range(rng.choice([1, 2]))]})
+                        'methods': [gen_sig(rng, call_tvs, variadic=True) for _ in range(rng.choice([1, 2]))]})
     if rng.random() < 0.4:
         classes.append({'kind': 'plain', 'tparams': [], 'init': None,
-                        'methods': [gen_sig(rng, call_tvs) for _ in range(rng.choice([1, 2]))]})
-    funs = [gen_sig(rng, call_tvs) for _ in range(rng.choice([0, 1, 1, 2]))]
+                        'methods': [gen_sig(rng, call_tvs, variadic=True) for _ in range(rng.choice([1, 2]))]})
+    funs = [gen_sig(rng, call_tvs, variadic=True) for _ in range(rng.choice([0, 1, 1, 2]))]
     world = {'classes': classes, 'funs': funs}
     steps, insts = [], {}      # slot -> (class index, xenv)
 
@@ -364,16 +422,16 @@ def gen_history_case(rng, max_steps):
             new(rng.choice(gen_idx))
         elif r < 0.16 and funs:
             f = rng.randrange(len(funs))
-            args, ret = gen_call(rng, funs[f], {})
-            steps.append(['fun', f, args, ret])
+            args, ret, ex, kw = gen_call_v(rng, funs[f], {})
+            steps.append(['fun', f, args, ret, [], ex, kw])
         else:
             slot = rng.choice(list(insts))
             k, xenv = insts[slot]
             if not classes[k]['methods']:
                 continue
             m = rng.randrange(len(classes[k]['methods']))
-            args, ret = gen_call(rng, classes[k]['methods'][m], xenv)
-            steps.append(['call', slot, m, args, ret])
+            args, ret, ex, kw = gen_call_v(rng, classes[k]['methods'][m], xenv)
+            steps.append(['call', slot, m, args, ret, ex, kw])
     return {'stream': 'generic-history', 'ctx': G.CTX, 'world': world, 'steps': steps}
 
 
@@ -467,7 +525,8 @@ def describe(c, r, k):
         non_class = {t['id'] for t, x in zip(cd['tparams'], xs) if x[0] != 'cls'}
         info['nested_class_tv_with_annotation_x'] = s[0] == 'call' and any(
             a[0] != 'tv' and (set(tvs_of(a, {})) & non_class) for a in positions_of(sg))
-    per_pos = [set(tvs_of(a, {})) for a in positions_of(sg)]
+    # a variadic parameter stands for any number of positions
+    per_pos = [set(tvs_of(a, {})) for a in positions_of(sg) + [sg[k] for k in ('varargs', 'varkw') if sg.get(k) is not None]]
     info['shared_tv_positions'] = any(per_pos[i] & per_pos[j] for i in range(len(per_pos)) for j in range(i + 1, len(per_pos)))
     return info
 
